@@ -15,7 +15,7 @@ const (
 	tolSFComplement = 1e-12 // P+Q-1, I_x(a,b)+I_{1-x}(b,a)-1 (absolute, both terms are <= 1)
 	tolSFRecur      = 1e-10 // recurrences, relative to the larger term (absolute where the terms are probabilities)
 	tolSFInverse    = 1e-9  // F(F^-1(y)) = y, relative on the smaller of y, 1-y
-	tolDigamma      = 1e-9 // the implementation's own truncation error is 5.3e-11 (NOTES.md)
+	tolDigamma      = 1e-9  // the implementation's own truncation error is 5.3e-11 (NOTES.md)
 	tolZeta         = 1e-12
 	tolNormQ        = 1e-13 // Phi(NormalQuantile(p)) = p, relative on the smaller tail (plus conditioning of erfc)
 	tolEll          = 1e-13
@@ -187,8 +187,8 @@ func genMathext(gen *vlib.G) {
 				}
 			}
 			for _, c := range []struct {
-				y          float64
-				inv, cinv  float64
+				y         float64
+				inv, cinv float64
 			}{{0, 0, math.Inf(1)}, {1, math.Inf(1), 0}} {
 				if v := mathext.GammaIncRegInv(a, c.y); v != c.inv {
 					r.fail("GammaIncRegInv-endpoint", fmt.Sprintf("a=%g y=%g", a, c.y), "got %v want %v", v, c.inv)
